@@ -642,9 +642,12 @@ func startable(in input) bool {
 	}
 	if in.Pos == posUpstream {
 		if r := lookup(posUpstream, sch); r != nil && r.Kind == "packet" {
-			if strings.Contains(in.Addr, "{ABS}") || in.Class == "missing-hostport" || sch == "udp6" || sch == "udp4" {
-				// KCP datagrams to an empty / unresolvable address vanish without any event and the client
-				// waits for ever: nothing to observe (udp4/udp6: undocumented, parse monitor only)
+			// KCP datagrams to an empty / unresolvable address vanish without any event and the client
+			// waits for ever: a packet upstream is only started when the recorder is certain to sit where
+			// the address points (udp4/udp6: undocumented, parse monitor only)
+			ok := map[string]bool{"documented": true, "unix-rel-path": true, "extension": true, "case-variant": true,
+				"udp-password": true, "documented-by-mutation": true, "url-extras": true}[in.Class]
+			if !ok || strings.Contains(in.Addr, "{ABS}") || sch == "udp6" || sch == "udp4" || !strings.Contains(in.Addr, sch+"://") && !strings.Contains(strings.ToLower(in.Addr), sch+"://") {
 				return false
 			}
 		}
